@@ -48,9 +48,6 @@ def r1_two_phase(ctx):
                     writes.append(n)
                 if isinstance(x, ast.Call) and isinstance(x.func, ast.Attribute) and x.func.attr == "compute_update":
                     computes.append((n, x))
-        if not computes or not writes:
-            ctx.violation("C04.R1", f, f.node, "update_parameters does not (compute updates and then) assign them", construct="def update_parameters")
-            continue
         # evaluation order == textual order only for eager code: a generator expression / lambda / map defers the call to the moment it
         # is consumed (possibly inside the assignment loop)
         parents = {}
@@ -58,7 +55,8 @@ def r1_two_phase(ctx):
             for ch in ast.iter_child_nodes(p_):
                 parents[ch] = p_
         EAGER = {"dict", "list", "tuple", "sorted", "set", "frozenset", "OrderedDict", "collections.OrderedDict"}
-        for cn, cx in computes:
+        every_compute = [c for c in ast.walk(f.node) if isinstance(c, ast.Call) and isinstance(c.func, ast.Attribute) and c.func.attr == "compute_update"]
+        for cx in every_compute:
             x, lazy = cx, None
             while x in parents and parents[x] is not f.node:
                 par = parents[x]
@@ -74,6 +72,9 @@ def r1_two_phase(ctx):
             ctx.check(lazy is None, "C04.R1", f, cx, "the update is computed eagerly (not inside a generator / lambda)",
                       f"`compute_update` sits in a lazily evaluated `{type(lazy).__name__ if lazy is not None else ''}`: it runs only when the result is consumed - i.e. between the state writes of the "
                       "assignment loop - so later parameters are computed from already-updated ones", construct="eager computation of the updates")
+        if not computes or not writes:
+            ctx.violation("C04.R1", f, f.node, "update_parameters does not (compute updates and then) assign them", construct="def update_parameters")
+            continue
         for cn, cx in computes:
             after_write = [w for w in writes if cfg.reachable(w, cn)]
             ctx.check(not after_write, "C04.R1", f, cx, "no state write can precede this computation",
